@@ -90,6 +90,26 @@ def run(tier="quick", seed=0):
                     why = check(vr, m, cons, pl, True, "complete")
                     record(why, {"needs": needs, "reserved_low": lo, "reserved_high": hi}, "complete")
                     distinct.add(("c", lo, hi, needs))
+    # (f) reservations that overlap, contain each other, repeat, or are EMPTY (slice(k, k) reserves nothing, wherever k lies -
+    #     inside another reservation, at its start or end, listed before or after it): every ordered pair, each global or local
+    nonempty = [slice(0, 2), slice(1, 3), slice(2, 3), slice(3, 6), slice(4, 5), slice(6, 8), slice(0, 8)]
+    empties = [slice(k, k) for k in range(0, CAP + 1)]
+    pool = nonempty + empties
+    for a_i, ra in enumerate(pool):
+        for b_i, rb in enumerate(pool):
+            if a_i == b_i and ra.start == ra.stop:
+                continue
+            if (a_i * 7 + b_i) % (1 if tier != "quick" else 2) and ra.start != ra.stop and rb.start != rb.stop:
+                continue            # (quick: every second pair of two non-empty reservations; all pairs with an empty one)
+            for where in ((None, None), (None, (0, 0)), ((0, 0), None), ((0, 0), (0, 0))):
+                for needs in ((1,), (2,), (1, 1), (3, 1)):
+                    vr = {"v%d" % i: {Cores: n} for i, n in enumerate(needs)}
+                    m = Machine(1, 1, chip_resources={Cores: CAP, SDRAM: 16})
+                    cons = [RRC(Cores, ra, where[0]) if where[0] else RRC(Cores, ra), RRC(Cores, rb, where[1]) if where[1] else RRC(Cores, rb)]
+                    pl = {v: (0, 0) for v in vr}
+                    why = check(vr, m, cons, pl, False, "pair")
+                    record(why, {"needs": needs, "reservations_in_order": [(ra.start, ra.stop, where[0]), (rb.start, rb.stop, where[1])]}, "pair")
+                    distinct.add(("pair", a_i, b_i, where, needs))
     # (c) two chips with a resource exception, two resources, seeded
     for i in range(400 if tier == "quick" else 5000):
         m = Machine(2, 1, chip_resources={Cores: 6, SDRAM: 10}, chip_resource_exceptions={(1, 0): {Cores: 4, SDRAM: 10}})
@@ -133,6 +153,6 @@ def run(tier="quick", seed=0):
             record(why, {"need_big": need1, "need_small": 8, "capacity": (1 << (k + 3)) + 64, "alignment": a}, "large")
             distinct.add(("large", k, a))
     return {"name": "c05_allocate", "evaluations": ev, "distinct_nontrivial": len(distinct),
-            "rule": "one chip of 8 cores: every 1-3 vertices with needs 0..3 x global reservations (none, 1, 2 from 9 slices incl. an empty one) x local reservation x alignment 1/2/4; completeness family: reservations only at the ends (0..2 low, 0..2 high), no alignment, every need vector with sum <= free must succeed; seeded two-chip two-resource layouts with resource exceptions; large quantities: align() on 2**k+d (k <= 70) x eight alignments, and two vertices needing 2**k+1 and 8 units of a user-defined resource with alignment 1/4/8; exact size, in range, aligned, unreserved, disjoint checked on every result",
+            "rule": "one chip of 8 cores: every 1-3 vertices with needs 0..3 x global reservations (none, 1, 2 from 9 slices incl. an empty one) x local reservation x alignment 1/2/4; every ordered pair (quick: every second pair of two non-empty ones) of reservations out of 7 non-empty and the 9 empty slices (k, k), each global or chip-local, with 1-2 vertices: reservations that overlap, contain each other, repeat or reserve nothing; completeness family: reservations only at the ends (0..2 low, 0..2 high), no alignment, every need vector with sum <= free must succeed; seeded two-chip two-resource layouts with resource exceptions; large quantities: align() on 2**k+d (k <= 70) x eight alignments, and two vertices needing 2**k+1 and 8 units of a user-defined resource with alignment 1/4/8; exact size, in range, aligned, unreserved, disjoint checked on every result",
             "bound": "capacity 8, <= 3 vertices (4 seeded), <= 3 reservations", "exhaustive": False, "label": "bounded",
             "samples": samples, "violations": viol, "seconds": round(time.time() - t0, 2)}
